@@ -72,7 +72,7 @@ dm_w_err(w) == /\ wpc[w] = "got" /\ nd + 1 \in FailDist /\ mux = 0
 dm_w_lock(w) == /\ wpc[w] = "computed" /\ mux = 0
                 /\ mux' = w /\ wpc' = [wpc EXCEPT ![w] = "locked"]
                 /\ UNCHANGED <<cfg, ppc, nxt, chan, closed, cur, nd, perr, werr, cells, wgc, mpc, ret>>
-w_unlock(w) == /\ wpc[w] = "locked" /\ mux = w                      \* (no hook: the hook sits inside the critical section)
+dm_w_unlock(w) == /\ wpc[w] = "locked" /\ mux = w                   \* (hook after the release)
                /\ mux' = 0 /\ wpc' = [wpc EXCEPT ![w] = "idle"]
                /\ UNCHANGED <<cfg, ppc, nxt, chan, closed, cur, nd, perr, werr, cells, wgc, mpc, ret>>
 dm_w_done(w) == /\ wpc[w] = "idle" /\ chan = <<>> /\ closed
@@ -93,7 +93,7 @@ WRecv == \E w \in Workers : \E p \in Pairs : dm_w_recv(w, p)
 WDist == \E w \in Workers : dm_w_dist(w)
 WErr == \E w \in Workers : dm_w_err(w)
 WLock == \E w \in Workers : dm_w_lock(w)
-WUnlock == \E w \in Workers : w_unlock(w)
+WUnlock == \E w \in Workers : dm_w_unlock(w)
 WDone == \E w \in Workers : dm_w_done(w)
 MRet == \E f \in {0, 1} : dm_m_ret(f)
 Finished == mpc = "done" /\ UNCHANGED vars
